@@ -152,8 +152,26 @@ fn check_label_positions_item(ctx: &mut Ctx, n: Item) {
         (Ty::Claims, m(vec![(n.clone(), Item::Null)]), "claim key"),
         (Ty::Kdf, rcbor::det(&Item::Array(vec![n.clone(), party.clone(), party.clone(), Item::Array(vec![Item::int(1), Item::Bytes(vec![])])])), "kdf alg"),
     ];
+    // claim keys with a value of every kind a typed claim could want (a text that spells a claim name
+    // stays a text whatever its value looks like)
+    let mut cases = cases;
+    for v in [Item::int(1000), Item::text("t"), Item::Bytes(vec![1]), Item::Float(1.5), Item::Array(vec![]), Item::Map(vec![])] {
+        cases.push((Ty::Claims, m(vec![(n.clone(), v.clone())]), "claim key with a typed-looking value"));
+        cases.push((Ty::Claims, m(vec![(Item::int(1), Item::text("i")), (n.clone(), v.clone()), (Item::int(4), Item::int(2000))]), "claim key between typed claims"));
+    }
     for (ty, b, what) in cases {
         decode_oracle(ctx, ty, &b, what, true);
+        // the same map wherever such a map can occur (carrier roots, counter signatures, later
+        // signers / recipients, key sets)
+        let carriers = match ty {
+            Ty::Header => crate::hostile::header_carriers(&b),
+            Ty::Key => crate::hostile::key_carriers(&b),
+            _ => vec![],
+        };
+        for (cty, cb, cname) in carriers.into_iter().skip(1) {
+            ctx.count("carried");
+            decode_oracle(ctx, cty, &cb, cname, false);
+        }
     }
 }
 
@@ -268,7 +286,7 @@ impl Check for C17 {
         }
     }
     fn rule(&self) -> String {
-        "exhaustive: every name of the 16 registry enumerations against a frozen IANA table (to_i64, discriminant, from_i64 of the registered value, round trip, no two names on one integer); from_i64 and is_private for every integer in [-70000, 70000] (covers every assigned value and the private-use boundary) plus 64-bit extremes and every registered value shifted by 2^8 ... 2^56, negated, complemented and sign-flipped (aliases under truncation); label decoding through the 9 label types and 8 typed fields (alg in header/key/KDF context, crit element, content type, kty, key op, claim key) on [-66000,-65000] u [-300,12000] and the probe points, judged by the reference model (registered -> name; unregistered private -> kept; otherwise rejected). The thorough tier adds label decoding on every integer of [-70000, 70000] and from_i64 / is_private / label decoding on random 64-bit integers (uniform, random widths, registered values displaced by random multiples of 2^8..2^56). Text labels: every text of a probe list (decimal, signed and zero-padded spellings of every registered value, names of every registry entry in several spellings, JWT claim names, private-use boundary and 64-bit extremes as text, texts of 23..70000 bytes) must be kept as text by every label type and typed field. Non-trivial = distinct (registry, integer) groups.".into()
+        "exhaustive: every name of the 16 registry enumerations against a frozen IANA table (to_i64, discriminant, from_i64 of the registered value, round trip, no two names on one integer); from_i64 and is_private for every integer in [-70000, 70000] (covers every assigned value and the private-use boundary) plus 64-bit extremes and every registered value shifted by 2^8 ... 2^56, negated, complemented and sign-flipped (aliases under truncation); label decoding through the 9 label types and 8 typed fields (alg in header/key/KDF context, crit element, content type, kty, key op, claim key) on [-66000,-65000] u [-300,12000] and the probe points, judged by the reference model (registered -> name; unregistered private -> kept; otherwise rejected); every header-map and key-map case is repeated inside 28 header carriers (protected / unprotected buckets of every structure, counter signatures, later signers and recipients) and 4 key-set positions. The thorough tier adds label decoding on every integer of [-70000, 70000] and from_i64 / is_private / label decoding on random 64-bit integers (uniform, random widths, registered values displaced by random multiples of 2^8..2^56). Text labels: every text of a probe list (decimal, signed and zero-padded spellings of every registered value, names of every registry entry in several spellings, JWT claim names, private-use boundary and 64-bit extremes as text, texts of 23..70000 bytes) must be kept as text by every label type and typed field. Non-trivial = distinct (registry, integer) groups.".into()
     }
     fn assumptions(&self) -> Vec<String> {
         vec!["the frozen table in harness/src/registry.rs transcribes the IANA COSE, CBOR-tag, CoAP content-format and CWT registries as of the snapshot the crate documents".into()]
